@@ -282,18 +282,20 @@ def c14(report):
         b = ["thr", "ge2"][(i + report.seed) % 2]
         nb = ["flip", "thr", "ge2"][(i + report.seed) % 3]
         return [dict(bin_name=b, addarm_bin=nb), dict(preconv=b, addarm_bin=nb)]
-    xjobs = cross_jobs(report.tier, report.seed, variants, "exact", FULL_OPS, only=lambda c: c[0] == "ts", tag="-c14")
+    xjobs = cross_jobs(report.tier, report.seed, variants, "exact", FULL_OPS, only=lambda c: c[0] == "ts", tag="-c14",
+                       caller_check=True)        # converting in the caller's array would convert it again on its next use
     for job in xjobs:
+        job["consts"]["EpochOnAdd"] = True
         for bkw in job["bindings"]:
             if bkw["np_"] is not None:
                 bkw["n_jobs"] = 1
-    ecf.defer(xjobs, by_clause("cross.", "call.exception"))
+    ecf.defer(xjobs, by_clause("cross.", "call.exception", "caller."))
     # a bandit created WITHOUT a binarizer whose first binarizer arrives with add_arm, against pre-converted rewards
     def late(lp, np_, i):
         return [dict(bin_name="none", addarm_bin="flip", binary_rewards=True), dict(preconv="ident", addarm_bin="flip", binary_rewards=True)]
-    ljobs = cross_jobs(report.tier, report.seed + 1, late, "exact", FULL_OPS, only=lambda c: c[0] == "ts", tag="-c14late",
-                       sims=report.tier == "thorough")
+    ljobs = cross_jobs(report.tier, report.seed + 1, late, "exact", FULL_OPS, only=lambda c: c[0] == "ts", tag="-c14late", depth=5)
     for job in ljobs:
+        job["consts"]["EpochOnAdd"] = True      # rows before / after the installing add_arm are different states
         for bkw in job["bindings"]:
             if bkw["np_"] is not None:
                 bkw["n_jobs"] = 1
